@@ -112,6 +112,8 @@ def gen_unary(spec, level="quick"):
             ops.append(("multiply_diagonal", (ax, tuple(chs[:1]))))
     ops += [("norm", ()), ("sum", ()), ("to_dense", ())]
     if nd == 2:
+        # decompositions (LAPACK replaced by contract stubs: vlib.stubs)
+        ops += [("qr", (False,)), ("qr", (True,)), ("svd", ()), ("svd_truncated", (1,)), ("svd_truncated", (2,))]
         (cm0, d0), (cm1, d1) = spec["indices"]
         if cm0 == cm1 and d0 != d1:
             ops += [("trace", ()), ("einsum", ("aa->",))]
@@ -219,6 +221,14 @@ def apply_unary(S, x, name, args, inplace=False):
         return x.abs()
     if name == "get_sparsity":
         return x.get_sparsity()
+    if name in ("qr", "svd", "svd_truncated"):
+        from . import stubs
+        stubs.install()
+        if name == "qr":
+            return sr.linalg.qr(x, stabilized=args[0])
+        if name == "svd":
+            return sr.linalg.svd(x)
+        return sr.linalg.svd_truncated(x, max_bond=args[0], absorb=None)
     if name == "trace":
         return x.trace()
     if name == "einsum":
